@@ -441,14 +441,14 @@ def install_c10(R):
     R.prop_meta["C10"] = dict(
         bounded_in_quick="kill injection on the real code: replay/C10.py kills a forked victim (os._exit) at every file-system operation boundary (before/after create, "
                          "after a partial write prefix, before close, before/after rename, before/after each removal of rmtree, before/after the dataset library write) of "
-                         "sow_combos, grow_missing and reap-and-sync for raw, Runner and Harvester crops (5 settings, batches of 2, engines joblib and h5netcdf), "
+                         "sow_combos, grow_missing and reap-and-sync for raw, Runner, Harvester and Sampler crops (5 settings, batches of 2, engines joblib, h5netcdf, pickle), "
                          "including a second kill during the recovery and growing a half-sown crop without re-sowing; every later reap must refuse or be exact, "
                          "the documented recovery must reach the direct results, harvested data must survive",
         not_decided=["whole-history claim 'from every crash state the recovery reaches the uninterrupted result' is decided only as lemma CrashRecover over the per-function "
                      "crash clauses (proved) plus the bounded kill injection; crash states of sow_combos are proved per Sower call (Sower.__call__/save_batch crash clauses) "
                      "and composed by the callback rule, not by a crash contract on the core runner",
                      "shutil.rmtree (delete_all) removal order and the crash states of the dataset libraries (h5netcdf / joblib.dump) are exercised by the bounded harness only",
-                     "Sampler crops (C15) and check_bad have no crash contracts",
+                     "Sampler.save_full_df has a crash clause (C15 contracts); the pandas writer's own partial states are exercised by the bounded harness",
                      "fsync / power-loss semantics: a kill leaves what the process had written (page cache), as in the property's statement"],
         assumptions=["atomicity granularity: open(create/truncate), each write, close, os.replace, os.remove are atomic steps; os.replace is atomic (POSIX rename)",
                      "temporary names '<name>.<uuid>.tmp' are invisible to every reader: globs and templates end in '.jbdmp' / '.clpkl' (string lemma real_names_are_not_tmp)"],
